@@ -47,6 +47,20 @@ pub fn through_raw(p: *const u32) -> u32 {
     unsafe { *p }
 }
 
+/// N-DET: an order decided by addresses, the comparison itself being inside the standard library.
+pub fn by_address(v: &mut Vec<&str>) {
+    v.sort_unstable_by_key(|s| (s.as_ptr(), s.len()));
+}
+
+/// Not N-DET: raw pointers that are only stored and handed back are no key of anything.
+pub fn keep_pointers(v: &[u32]) -> Vec<*const u32> {
+    let mut out = Vec::new();
+    for x in v {
+        out.push(x as *const u32);
+    }
+    out
+}
+
 /// B-CURRENT: an adaptor that cuts a walk short.
 pub fn leading_positive(v: &[u32]) -> Vec<u32> {
     v.iter().cloned().take_while(|x| *x > 0).collect()
